@@ -41,7 +41,7 @@ pub fn judge_nocover<T: Viewed>(r: Result<T, Rec>, ex: &Expect, p: &Path) {
             oblige!(!any_ev(&ex.log, is_missing_ev), "C08:accepted_although_a_missing_field_must_be_reported");
             oblige!(!any_ev(&ex.log, is_unknown_key_ev), "C09:accepted_although_an_unknown_key_must_be_reported");
             oblige!(!any_ev(&ex.log, is_user_fn_ev), "C11:accepted_although_a_user_function_failed");
-            oblige!(ex.log.n != 0 || eq_slots(&v.slots(), &ex.view), "C07,C08,C10:fields_filled_from_effective_keys_defaults_and_selected_variant");
+            oblige!(ex.log.n != 0 || eq_slots(&v.slots(), &ex.view), "C07,C08,C10,C11:fields_filled_from_effective_keys_defaults_conversions_and_selected_variant");
             oblige!(ex.log.n != 0 || eq_counters(&counters(), &ex.counters), "C11:user_functions_run_exactly_once_on_good_values");
         }
         Err(e) => {
@@ -632,6 +632,87 @@ pub fn derive_unitsv() {
 }
 
 
+// ---- T22: identifiers the renaming rules must treat exactly: non-ASCII capitals under lowercase, underscores / digits in variant names under camelCase ----
+#[derive(Deserr)]
+#[deserr(rename_all = lowercase)]
+#[allow(non_snake_case, uncommon_codepoints, mixed_script_confusables)]
+pub struct LowerOdd {
+    pub XÉchelle: Leaf,
+    #[deserr(default = Leaf(4))]
+    pub TÉ_CRAN: Leaf,
+    pub X2_Y: Leaf,
+}
+#[allow(non_snake_case)]
+impl Viewed for LowerOdd { fn slots(&self) -> [u64; MAXF] { [lv(&self.XÉchelle), lv(&self.TÉ_CRAN), lv(&self.X2_Y), 0, 0, 0] } }
+pub static D_LOWERODD: [&str; 7] = ["xéchelle", "té_cran", "x2_y", "xÉchelle", "tÉ_cran", "X2_Y", "XÉchelle"];
+pub static S_LOWERODD: StructDesc = StructDesc { fields: &[
+    FieldDesc { key: 0, presence: Presence::Required, ty: FTy::Leaf, missing_fn: false, conv: Conv::None, map: None },
+    FieldDesc { key: 1, presence: Presence::Default(5), ty: FTy::Leaf, missing_fn: false, conv: Conv::None, map: None },
+    FieldDesc { key: 2, presence: Presence::Required, ty: FTy::Leaf, missing_fn: false, conv: Conv::None, map: None },
+], deny: Deny::No, validate: None };
+pub fn derive_lowerodd_2() { run_struct_nocover::<LowerOdd>(&S_LOWERODD, &D_LOWERODD, 2) }
+pub fn derive_lowerodd_3() { run_struct_nocover::<LowerOdd>(&S_LOWERODD, &D_LOWERODD, 3) }
+
+/// camelCase over identifiers with digits: convert_case also starts a new word at a digit followed by a letter
+#[derive(Deserr)]
+#[deserr(rename_all = camelCase, deny_unknown_fields)]
+pub struct CamelOdd {
+    pub a4addr: Leaf,
+    #[deserr(default = Leaf(4))]
+    pub x2d: Leaf,
+    pub foo_bar9: Leaf,
+}
+impl Viewed for CamelOdd { fn slots(&self) -> [u64; MAXF] { [lv(&self.a4addr), lv(&self.x2d), lv(&self.foo_bar9), 0, 0, 0] } }
+pub static D_CAMELODD: [&str; 7] = ["a4Addr", "x2D", "fooBar9", "a4addr", "x2d", "foo_bar9", "A4Addr"];
+pub static S_CAMELODD: StructDesc = StructDesc { fields: &[
+    FieldDesc { key: 0, presence: Presence::Required, ty: FTy::Leaf, missing_fn: false, conv: Conv::None, map: None },
+    FieldDesc { key: 1, presence: Presence::Default(5), ty: FTy::Leaf, missing_fn: false, conv: Conv::None, map: None },
+    FieldDesc { key: 2, presence: Presence::Required, ty: FTy::Leaf, missing_fn: false, conv: Conv::None, map: None },
+], deny: Deny::Default, validate: None };
+pub fn derive_camelodd_2() { run_struct_nocover::<CamelOdd>(&S_CAMELODD, &D_CAMELODD, 2) }
+pub fn derive_camelodd_3() { run_struct_nocover::<CamelOdd>(&S_CAMELODD, &D_CAMELODD, 3) }
+
+#[derive(Deserr, Debug, PartialEq, Eq)]
+#[deserr(rename_all = camelCase)]
+#[allow(non_camel_case_types)]
+pub enum UnitsOdd { Http_Server, read_write, V2Beta, #[deserr(rename = "x_y")] Plain_Old }
+impl Viewed for UnitsOdd { fn slots(&self) -> [u64; MAXF] { [match self { UnitsOdd::Http_Server => 1, UnitsOdd::read_write => 2, UnitsOdd::V2Beta => 3, UnitsOdd::Plain_Old => 4 }, 0, 0, 0, 0, 0] } }
+pub static D_UNITSODD: [&str; 10] = ["httpServer", "readWrite", "v2Beta", "x_y", "http_Server", "read_write", "Http_Server", "plainOld", "V2Beta", "ReadWrite"];
+pub fn derive_unitsodd() {
+    reset_all(&D_UNITSODD);
+    let n = match nd::below(3) { 0 => Node::Str(nd::below(10)), 1 => Node::Int(1), _ => Node::Null };
+    let o = ValuePointerRef::Origin; let l = o.push_index(1); let p = Path::ROOT.idx(1);
+    let r = <UnitsOdd as Deserr<Rec>>::deserialize_from_value::<KV>(to_value(n), l);
+    let mut ex = Expect::EMPTY;
+    reference::unit_enum_spec(&[0, 1, 2, 3], n, p, &mut ex);
+    if let (Ok(v), Node::Str(i)) = (&r, n) { oblige!(v.slots()[0] == i as u64 + 1, "C10:tag_selects_exactly_the_named_variant"); }
+    match (&r, ex.log.n) { (Err(e), k) if k > 0 => { oblige!(agree_on(e, &ex.log, is_tag_ev), "C04,C10:tag_and_variant_reports"); } (Ok(_), k) if k > 0 => { oblige!(!any_ev(&ex.log, is_tag_ev), "C10:accepted_although_the_tag_or_variant_must_be_reported"); } _ => {} }
+    judge_nocover(r, &ex, &p);
+}
+
+// ---- T23: `map` on a field declared AFTER a skipped field (the derive moves skipped fields last: per-field lists must move together) ----
+#[derive(Deserr)]
+#[deserr(error = Rec)]
+pub struct MapSkip {
+    pub aaaa: Leaf,
+    #[deserr(skip)]
+    pub ssss: Leaf,
+    #[deserr(map = map_req)]
+    pub cccc: Leaf,
+    #[deserr(default = Leaf(4))]
+    pub dddd: Leaf,
+}
+impl Viewed for MapSkip { fn slots(&self) -> [u64; MAXF] { [lv(&self.aaaa), lv(&self.ssss), lv(&self.cccc), lv(&self.dddd), 0, 0] } }
+pub static D_MAPSKIP: [&str; 5] = ["aaaa", "cccc", "dddd", "ssss", "bbbb"];
+pub static S_MAPSKIP: StructDesc = StructDesc { fields: &[
+    FieldDesc { key: 0, presence: Presence::Required, ty: FTy::Leaf, missing_fn: false, conv: Conv::None, map: None },
+    FieldDesc { key: 255, presence: Presence::Skipped(1), ty: FTy::Leaf, missing_fn: false, conv: Conv::None, map: None },
+    FieldDesc { key: 1, presence: Presence::Required, ty: FTy::Leaf, missing_fn: false, conv: Conv::None, map: Some(2) },
+    FieldDesc { key: 2, presence: Presence::Default(5), ty: FTy::Leaf, missing_fn: false, conv: Conv::None, map: None },
+], deny: Deny::No, validate: None };
+pub fn derive_mapskip_2() { run_struct::<MapSkip>(&S_MAPSKIP, &D_MAPSKIP, 2) }
+pub fn derive_mapskip_3() { run_struct::<MapSkip>(&S_MAPSKIP, &D_MAPSKIP, 3) }
+
 // ---- T20: an internally tagged enum whose variants are ALL unit variants ---------------------------------------------------
 #[derive(Deserr)]
 #[deserr(tag = "kind")]
@@ -726,6 +807,28 @@ fn order3_body<T: Deserr<Rec> + Viewed>(dict: &'static [&'static str], k: [u8; 3
         q += 1;
     }
 }
+/// three members of which at least two carry the SAME key (an order-preserving source can present that), every one of the 6 orders:
+/// the multiset of reports is the same whatever the order (the value on success is not compared: the last occurrence wins)
+fn order3_dups_body<T: Deserr<Rec> + Viewed>(dict: &'static [&'static str], k: [u8; 3], v: [Node; 3]) {
+    nd::assume(k[0] == k[1] || k[0] == k[2] || k[1] == k[2]);
+    const PERMS: [[usize; 3]; 6] = [[0, 1, 2], [0, 2, 1], [1, 0, 2], [1, 2, 0], [2, 0, 1], [2, 1, 0]];
+    let o = ValuePointerRef::Origin; let l = o.push_index(1);
+    let run = |p: &[usize; 3]| { reset_all(dict); rec::set_policy(1); let mut i = 0; while i < 3 { put_entry(i as u8, k[p[i]], v[p[i]]); i += 1; } <T as Deserr<Rec>>::deserialize_from_value::<KV>(to_value(Node::Map(0, 3)), l) };
+    let first = run(&PERMS[0]);
+    let mut q = 1;
+    while q < 6 {
+        let other = run(&PERMS[q]);
+        match (&first, &other) {
+            (Ok(_), Ok(_)) => {}
+            (Err(a), Err(b)) => { oblige!(same_multiset(a, b), "C15:same_set_of_reports_for_both_member_orders"); }
+            _ => { oblige!(false, "C15:same_outcome_for_both_member_orders"); }
+        }
+        q += 1;
+    }
+}
+pub fn order_camel_3d() { order3_dups_body::<Camel>(&D_CAMEL, [nd::below(6), nd::below(6), nd::below(6)], [any_val(), any_val(), any_val()]) }
+pub fn order_deny4_3d() { order3_dups_body::<Deny4>(&D_DENY4, [nd::below(5), nd::below(5), nd::below(5)], [any_val(), any_val(), any_val()]) }
+pub fn order_fns5_3d() { order3_dups_body::<Fns5>(&D_FNS5, [nd::below(5), nd::below(5), nd::below(5)], [any_val(), any_val(), any_val()]) }
 pub fn order_camel_3() { order3_body::<Camel>(&D_CAMEL, [nd::below(6), nd::below(6), nd::below(6)], [any_val(), any_val(), any_val()]) }
 pub fn order_lower_3() { order3_body::<Lower>(&D_LOWER, [nd::below(5), nd::below(5), nd::below(5)], [any_val(), any_val(), any_val()]) }
 pub fn order_deffirst_3() { order3_body::<DefFirst>(&D_DEFFIRST, [nd::below(5), nd::below(5), nd::below(5)], [any_val(), any_val(), any_val()]) }
@@ -739,7 +842,7 @@ pub fn registry() -> Vec<(&'static str, crate::Body)> {
          ("derive_tagged_first", derive_tagged_first), ("derive_tagged_last", derive_tagged_last), ("derive_tagged_absent", derive_tagged_absent), ("derive_tagged_not_a_map", derive_tagged_not_a_map),
          ("derive_units", derive_units), ("derive_nest", derive_nest), ("derive_deffirst_2", derive_deffirst_2), ("derive_deffirst_3", derive_deffirst_3), ("derive_ferr10_2", derive_ferr10_2),
          ("derive_refs13_2", derive_refs13_2), ("derive_refs13_3", derive_refs13_3), ("derive_cfrom14", derive_cfrom14), ("derive_tagfn_3", derive_tagfn_3), ("derive_tagunits_2", derive_tagunits_2), ("derive_defmiss_2", derive_defmiss_2), ("derive_tagboth_2", derive_tagboth_2), ("derive_tagval_2", derive_tagval_2), ("derive_unitsv", derive_unitsv), ("derive_camel2_2", derive_camel2_2), ("derive_cont9b", derive_cont9b), ("derive_tagdeny_first", derive_tagdeny_first), ("derive_tagdeny_last", derive_tagdeny_last), ("order_camel", order_camel), ("order_tagged", order_tagged), ("order_conv8", order_conv8),
-         ("order_camel_3", order_camel_3), ("order_lower_3", order_lower_3), ("order_deffirst_3", order_deffirst_3), ("order_tagged_3", order_tagged_3), ("order_tagdeny_3", order_tagdeny_3), ("order_fns5_3", order_fns5_3)]
+         ("order_camel_3", order_camel_3), ("order_lower_3", order_lower_3), ("order_deffirst_3", order_deffirst_3), ("order_tagged_3", order_tagged_3), ("order_tagdeny_3", order_tagdeny_3), ("order_fns5_3", order_fns5_3), ("derive_lowerodd_2", derive_lowerodd_2), ("derive_lowerodd_3", derive_lowerodd_3), ("derive_unitsodd", derive_unitsodd), ("derive_mapskip_2", derive_mapskip_2), ("derive_mapskip_3", derive_mapskip_3), ("derive_camelodd_2", derive_camelodd_2), ("derive_camelodd_3", derive_camelodd_3), ("order_camel_3d", order_camel_3d), ("order_deny4_3d", order_deny4_3d), ("order_fns5_3d", order_fns5_3d)]
 }
 
 #[cfg(kani)]
